@@ -34,6 +34,13 @@ fn arg(rng: &mut Rng, img: &RefImage) -> String {
         8 => rng.s(&["r8", "xyz", "12ab", "^^", "+", "--1", "0#1", "\u{e9}", "nolabel", "x", "#", "R", "^x"]).to_string(),
         9 => format!("{}", rng.below(100000)),
         10 => "".into(),
+        11 if !img.labels.is_empty() => {
+            // an existing label in the wrong case (labels are case-sensitive: an error plus a hint)
+            let name = rng.pick(&img.labels).0.clone();
+            let flipped: String =
+                name.chars().map(|c| if c.is_ascii_lowercase() { c.to_ascii_uppercase() } else { c.to_ascii_lowercase() }).collect();
+            if rng.bool() { flipped } else { format!("{}+{}", flipped, rng.below(3)) }
+        }
         _ => format!("x{:x}", rng.u16()),
     }
 }
